@@ -328,6 +328,9 @@ struct DoerContext {
     root: PathBuf,
     /// Stores details of a file we're partway through receiving.
     in_progress_file_receive: Option<(RootRelativePath, std::fs::File)>,
+    /// The file for which an earlier chunk couldn't be written, if the boss may still be sending us more chunks of it.
+    /// These must not be mistaken for the start of a new file, as the file would end up incomplete but with its final modified time.
+    failed_file_receive: Option<RootRelativePath>,
 }
 
 // Repeatedly waits for Commands from the boss and processes them (possibly sending back Responses).
@@ -409,6 +412,17 @@ fn exec_command(command: Command, comms: &mut Comms, context: &mut Option<DoerCo
             profile_this!(format!("CreateOrUpdateFile {}", path.to_string()));
         //    std::thread::sleep(std::time::Duration::from_nanos(1));
 
+            // Check if this is the rest of a file that we already failed to write part of
+            if context.as_ref().unwrap().failed_file_receive.as_ref() == Some(&path) {
+                if !more_to_follow {
+                    context.as_mut().unwrap().failed_file_receive = None;
+                }
+                comms.send_response(Response::Error(format!("Not writing more contents to '{}' because an earlier part failed", full_path.display())))?;
+                return Ok(true);
+            }
+            // If this chunk fails and more are on their way, remember to refuse them
+            context.as_mut().unwrap().failed_file_receive = if more_to_follow { Some(path.clone()) } else { None };
+
             // Check if this is the continuation of an existing file
             let mut f = match context.as_mut().unwrap().in_progress_file_receive.take() {
                 Some((in_progress_path, f)) => {
@@ -436,6 +450,7 @@ fn exec_command(command: Command, comms: &mut Comms, context: &mut Option<DoerCo
                 comms.send_response(Response::Error(format!("Error writing file contents to '{}': {e}", full_path.display())))?;
                 return Ok(true);
             }
+            context.as_mut().unwrap().failed_file_receive = None; // This chunk was fine
 
             // If there is more data to follow, store the open file handle for next time
             context.as_mut().unwrap().in_progress_file_receive = if more_to_follow {
@@ -527,6 +542,7 @@ fn handle_set_root(comms: &mut Comms, context: &mut Option<DoerContext>, root: S
     *context = Some(DoerContext {
         root: PathBuf::from(root),
         in_progress_file_receive: None,
+        failed_file_receive: None,
     });
     let context = context.as_ref().unwrap();
 
